@@ -19,6 +19,7 @@ def make_oracle(lim):
         tk = Tracker()
         rules = {}        # cid -> number of acknowledged rules
         uid = {}
+        slots = []        # (caller, callee, serial): calls delivered and not yet answered
         for i, (per, closed) in enumerate(tr.steps):
             tk.before(i, tr)
             op = tr.ops[i]
@@ -61,6 +62,27 @@ def make_oracle(lim):
                         same = len([c for c in tk.names if c in tk.live and uid.get(c) == uid.get(actor)])
                         if not (("completed" in lim and n_named_before >= lim["completed"]) or ("peruser" in lim and same >= lim["peruser"])):
                             bad.append((None, "step %d: Hello refused with LimitsExceeded below every limit (%d registered, %d of this user)" % (i, n_named_before, same)))
+            # outstanding calls per caller (max_replies_per_connection): a call that is delivered while its caller already has
+            # `limit` calls outstanding - to whomever - exceeds the limit
+            if "replies" in lim and sent and actor in tk.names and fld(sent, "t") in ("1", "2", "3"):
+                d = hexname(fld(sent, "dest"))
+                if d is not None and d != BUS and tk.primary(d) not in (None, "?"):
+                    owner = tk.primary(d)
+                    me = tk.names[actor]
+                    got = len([l for l in per.get(owner, []) if hexname(fld(l, "sender")) == me and fld(l, "ser") == fld(sent, "ser") and fld(l, "t") == fld(sent, "t")])
+                    if fld(sent, "t") == "1" and got == 1 and int(fld(sent, "f") or 0) % 2 == 0:
+                        mine = [s for s in slots if s[0] == actor]
+                        if len(mine) >= lim["replies"] and (actor, owner, int(fld(sent, "ser"))) not in slots:
+                            bad.append((None, "step %d: a call of connection %d was delivered although it already has %d calls outstanding (%s), limit %d" %
+                                        (i, actor, len(mine), [(s[1], s[2]) for s in mine], lim["replies"])))
+                        if (actor, owner, int(fld(sent, "ser"))) not in slots:
+                            slots.append((actor, owner, int(fld(sent, "ser"))))
+                    elif fld(sent, "t") in ("2", "3") and fld(sent, "rs") not in (None, "-"):
+                        s = (owner, actor, int(fld(sent, "rs")))
+                        if s in slots:
+                            slots.remove(s)
+            gone_now = set(closed) | ({op[1]} if op[0] == "close" else set())
+            slots = [s for s in slots if s[0] not in gone_now and s[1] not in gone_now]
             tk.after(i, tr)
             for c in list(rules):
                 if c not in tk.live:
